@@ -488,6 +488,15 @@ func (e *Engine) exprKey(v ssa.Value, depth int) string {
 		if load.NeverWritten(x) {
 			return "zero" // a local that is only ever read holds the zero value of its type
 		}
+		// a local buffer whose only writer is the outlined encoder it is handed to (var b [32]byte; s.bytes(&b))
+		// is that encoder's result: keyed like the slice the exported wrapper returns
+		for _, ref := range *x.Referrers() {
+			if c, ok := ref.(*ssa.Call); ok {
+				if h := c.Common().StaticCallee(); h != nil && e.P.InRepo(h) && (load.BaseName(h) == "bytes" || load.BaseName(h) == "Bytes") {
+					return load.BaseName(h) + "()"
+				}
+			}
+		}
 		if x.Comment != "" {
 			return x.Comment
 		}
